@@ -1,6 +1,6 @@
 #!/bin/bash
 # usage: try_mutant.sh PATCH CHECK [CHECK...]  - apply a seeded change to /repo, run the quick checks, undo it
-patch=$1; shift
+patch=$(realpath "$1"); shift
 cd /repo || exit 2
 if ! git diff --quiet; then echo "repo dirty"; exit 2; fi
 if ! git apply "$patch" 2>/tmp/apply.err; then
